@@ -100,6 +100,9 @@ func (c17) Gen(seed uint64, tier string) Case {
 	r := simrt.NewRNG(seed)
 	c := &C17Case{Common: Common{Prop: "C17", Seed: seed, Tier: tier}}
 	n := 3 + r.Intn(8)
+	if tier == "thorough" {
+		n = 3 + r.Intn(16)
+	}
 	startAt := r.Intn(n)
 	names := 0
 	var regNames []string
